@@ -38,6 +38,10 @@ class Prop(object):
     (C promotes float operands to double), writes convert like a C store,
     every access is bounds checked."""
     __slots__ = ('a', 'n', 'name')
+    # True: reads return NumPy scalars, so that x/0.0 gives inf/nan as the
+    # compiled C code does (Python floats raise ZeroDivisionError); the
+    # arithmetic is IEEE double either way
+    C_DIVISION = False
 
     def __init__(self, a, name):
         self.a = a
@@ -48,6 +52,8 @@ class Prop(object):
         if not 0 <= i < self.n:
             raise OutOfBounds('%s[%d] read, length %d' % (self.name, i,
                                                           self.n))
+        if Prop.C_DIVISION and self.a.dtype.kind == 'f':
+            return self.a[i]
         return self.a[i].item()
 
     def __setitem__(self, i, v):
@@ -103,6 +109,42 @@ class Interp(object):
                 self.ccopy[id(eq)] = copy.deepcopy(eq)
         self.scratch = {v: [0.0, 0.0, 0.0] for v in VECTORS}
         self.log = []
+        self._prepare_modules()
+
+    def _prepare_modules(self):
+        """The environment equation methods are documented to run in: the C
+        math functions and constants are available without import, and in a
+        serial run parallel_reduce_array returns its argument."""
+        import sys
+        from pysph.base.reduce_array import dummy_reduce_array
+        names = dict(M_PI=math.pi, M_E=math.e, M_PI_2=math.pi / 2,
+                     M_PI_4=math.pi / 4, M_1_PI=1 / math.pi,
+                     M_2_PI=2 / math.pi, M_SQRT2=math.sqrt(2.0),
+                     M_SQRT1_2=math.sqrt(0.5), M_LN2=math.log(2.0),
+                     M_LN10=math.log(10.0), M_LOG2E=1 / math.log(2.0),
+                     M_LOG10E=1 / math.log(10.0),
+                     M_2_SQRTPI=2 / math.sqrt(math.pi))
+        for f in ('sqrt', 'sin', 'cos', 'tan', 'exp', 'log', 'log10', 'pow',
+                  'fabs', 'floor', 'ceil', 'atan', 'atan2', 'asin', 'acos',
+                  'sinh', 'cosh', 'tanh', 'erf', 'fmod'):
+            names[f] = getattr(math, f)
+        mods = set()
+        for g in self.groups:
+            for eq in self._all_eqs(g):
+                for klass in type(eq).__mro__:
+                    mods.add(klass.__module__)
+                if hasattr(eq, '_get_helpers_'):
+                    for fn in eq._get_helpers_():
+                        mods.add(getattr(fn, '__module__', None))
+        for mn in mods:
+            mod = sys.modules.get(mn)
+            if mod is None or mn in ('builtins', 'pysph.sph.equation'):
+                continue
+            for k, v in names.items():
+                if not hasattr(mod, k):
+                    setattr(mod, k, v)
+            if getattr(mod, 'parallel_reduce_array', None) is not None:
+                mod.parallel_reduce_array = dummy_reduce_array
 
     # -- helpers ------------------------------------------------------------
     def _all_eqs(self, g):
@@ -192,6 +234,19 @@ class Interp(object):
             elif nm == 'GHIJ':
                 env[nm] = k.gradient_h(env['XIJ'], env['RIJ'], env['HIJ'])
 
+    def _update_nnps(self):
+        # binning non-finite positions is undefined behaviour in the
+        # neighbour search (outside the properties): stop instead
+        for pa in self.arrays:
+            for p in ('x', 'y', 'z', 'h'):
+                if not np.all(np.isfinite(pa.get(
+                        p, only_real_particles=False))):
+                    raise FloatingPointError(
+                        'non-finite %s.%s reached the neighbour search' % (
+                            pa.name, p))
+        self.nnps.update_domain()
+        self.nnps.update()
+
     # -- the documented evaluation order -------------------------------------
     def compute(self, t, dt):
         self.t, self.dt = t, dt
@@ -222,8 +277,7 @@ class Interp(object):
                 if sg.condition is None or sg.condition(self.t, self.dt):
                     self._do_group(sg)
             if g.update_nnps:
-                self.nnps.update_domain()
-                self.nnps.update()
+                self._update_nnps()
             if g.post:
                 g.post()
         else:
@@ -326,7 +380,6 @@ class Interp(object):
                 if hasattr(c, 'reduce'):
                     c.reduce(dst, t, dt)
         if g.update_nnps:
-            self.nnps.update_domain()
-            self.nnps.update()
+            self._update_nnps()
         if g.post:
             g.post()
